@@ -312,15 +312,14 @@ namespace ratio
                                        { return lra_th.lb(ae->l) != lra_th.ub(ae->l); });
             var_it != xprs.cend())
         {
-            arith_expr c_xpr = *var_it;
-            lin l = c_xpr->l;
-            for (const auto &xpr : xprs)
-                if (xpr != c_xpr)
+            lin l = (*var_it)->l;
+            for (auto it = xprs.cbegin(); it != xprs.cend(); ++it)
+                if (it != var_it) // every OTHER factor, by position: the same expression may occur twice ('x * x')..
                 {
-                    if (lra_th.lb(xpr->l) != lra_th.ub(xpr->l)) // with NDEBUG the product would silently use the current value of the factor..
+                    if (lra_th.lb((*it)->l) != lra_th.ub((*it)->l)) // with NDEBUG the product would silently use the current value of the factor..
                         throw std::invalid_argument("non-linear expression..");
-                    assert(lra_th.value(xpr->l).get_infinitesimal() == rational::ZERO);
-                    l *= lra_th.value(xpr->l).get_rational();
+                    assert(lra_th.value((*it)->l).get_infinitesimal() == rational::ZERO);
+                    l *= lra_th.value((*it)->l).get_rational();
                 }
             return new arith_item(*this, get_type(xprs), l);
         }
